@@ -103,6 +103,48 @@ Theorem C19_toggle_debounce_change_needs_press : forall p h s,
   s_level s = true.
 Proof. exact toggle_debounce_change_needs_press. Qed.
 
+(* the _SteadyDebounce never reads a pressed button as released: a sample
+   that reads the raw button pressed is passed on as pressed (any clock, any
+   period, after any history) *)
+Theorem C19_toggle_debounce_never_hides_press : forall p h s,
+  s_level s = true -> out sd_step (sd_new p) h s = true.
+Proof. exact steady_never_hides_press. Qed.
+
+(* never while the button is held -- with or without debounce, whatever the
+   clock does, whatever the period: the sample that follows a sample that
+   read the button pressed does not change the value (in particular not the
+   sample taken exactly one debounce period after the press was registered) *)
+Theorem C19_toggle_no_change_while_held : forall p h s1 s2,
+  s_level s1 = true -> value p (h ++ [s1; s2]) = value p (h ++ [s1]).
+Proof. exact toggle_no_change_after_pressed_sample. Qed.
+
+(* ... so the debounced toggle changes only at a released->pressed edge of
+   the sampled raw levels (at most once per press) *)
+Theorem C19_toggle_debounce_change_only_at_rising_edge : forall p h s,
+  mono_from 0 (map s_now (h ++ [s])) ->
+  value (Some p) (h ++ [s]) <> value (Some p) h ->
+  s_level s = true /\ last (map s_level h) false = false.
+Proof. exact toggle_debounce_change_only_at_rising_edge. Qed.
+
+(* ... and a press is not lost: a sample that reads pressed right after a
+   sample that read released (or as the very first sample) does flip the
+   toggle when every earlier sample that read pressed lies at least p before
+   that released sample (whose clock reading is not negative) *)
+Theorem C19_toggle_debounce_press_after_quiet_flips : forall p h s,
+  0 <= last (map s_now h) 0 ->
+  last (map s_level h) false = false ->
+  (forall s', In s' h -> s_level s' = true -> last (map s_now h) 0 - s_now s' >= p) ->
+  s_level s = true ->
+  value (Some p) (h ++ [s]) <> value (Some p) h.
+Proof. exact toggle_debounce_press_after_quiet_flips. Qed.
+
+(* a debounce period of 0 (or less) debounces nothing: every accessor returns
+   what it returns on a Toggle without debounce *)
+Theorem C19_toggle_nonpositive_period_is_plain : forall p h,
+  p <= 0 -> mono_from 0 (map s_now h) ->
+  toggle_run (Some p) h = toggle_run None h.
+Proof. exact toggle_nonpositive_period_is_plain. Qed.
+
 (* ================= ButtonDebouncer ========================================== *)
 Theorem C19_debouncer_get_returns_result : forall p h now lvl,
   out deb_step (deb_new p) h (BGet now lvl) = Some (deb_result p h now lvl).
@@ -226,6 +268,27 @@ Example C19_toggle_debounce_negative_clock :
   value (Some 32) [smp (-1) false AGet] = true.
 Proof. vm_compute. reflexivity. Qed.
 
+(* a button pressed at tick 10 and held, polled every p/2 = 16 ticks: the
+   sample exactly one period after the registering press (tick 42) and the
+   ones after it change nothing; after a release of p ticks the next press
+   flips the toggle again (hypotheses of the liveness theorem satisfied) *)
+Example C19_nv_toggle_held_across_period :
+  let h := [smp 0 false AGet; smp 10 true AOn; smp 26 true AGet; smp 42 true AOff; smp 58 true ABool;
+            smp 74 true AGet; smp 90 false AGet; smp 106 false AOn] in
+  let s := smp 122 true AOn in
+  toggle_run (Some 32) (h ++ [s]) = [false; true; true; false; true; true; true; true; false] /\
+  debounced 32 h = [false; true; true; true; true; true; true; false] /\
+  0 <= last (map s_now h) 0 /\ last (map s_level h) false = false /\
+  (forallb (fun s' => negb (s_level s') || (last (map s_now h) 0 - s_now s' >=? 32)) h = true) /\
+  value (Some 32) (h ++ [s]) <> value (Some 32) h.
+Proof. nv. Qed.
+
+(* period 0: plain toggle behaviour, every press registers *)
+Example C19_nv_toggle_zero_period :
+  let h := [smp 0 false AGet; smp 1 true AGet; smp 1 true AGet; smp 2 false AGet; smp 2 true AGet] in
+  mono_from 0 (map s_now h) /\ toggle_run (Some 0) h = [false; true; true; true; false].
+Proof. nv. Qed.
+
 (* debouncer: a True, a refused press exactly one period later (the bound
    "> p" is tight), a True one tick after that *)
 Example C19_nv_debouncer :
@@ -276,6 +339,11 @@ Print Assumptions C19_toggle_no_change_on_release.
 Print Assumptions C19_toggle_debounce_parity.
 Print Assumptions C19_toggle_debounce_spacing.
 Print Assumptions C19_toggle_debounce_change_needs_press.
+Print Assumptions C19_toggle_debounce_never_hides_press.
+Print Assumptions C19_toggle_no_change_while_held.
+Print Assumptions C19_toggle_debounce_change_only_at_rising_edge.
+Print Assumptions C19_toggle_debounce_press_after_quiet_flips.
+Print Assumptions C19_toggle_nonpositive_period_is_plain.
 Print Assumptions C19_debouncer_get_returns_result.
 Print Assumptions C19_debouncer_true_only_when_pressed.
 Print Assumptions C19_debouncer_spacing.
